@@ -185,6 +185,18 @@ def sample(c):
     return {"L0": c["L0"], "steps": [short(s) for s in c["steps"]]}
 
 
+def _k(kind, path, argv, op="call"):
+    return {"op": op, "kind": kind, "path": path, "argv": argv}
+
+
+FIXED = [
+    {"L0": 2047, "steps": [_k("e", b"/bin/long", [b"first", b"Z" * 3000]), _k("v", b"/bin/short", [b"second", b""]), _k("e", b"/bin/n", None)]},
+    {"L0": 255, "steps": [_k("e", b"/x", [b""]), _k("v", b"/y", [b"", b""]), _k("e", b"/z", []), _k("v", b"/100%d", [b"date", b"+%d", b"100%"])]},
+    {"L0": 255, "steps": [_k("v", b"/a", [b"a" * 255]), _k("e", b"/b", [b"b" * 254, b"x"]), _k("e", b"/c", [b"c" * 256]), {"op": "limit", "L": 300},
+                          _k("e", b"/d", [b"d" * 299]), _k("e", b"/e", [b"e"], op="thread")]},
+]
+
+
 def main():
     ctx = Ctx(PID, "exploration", RULE)
     bs = ctx.run.build_many(["ts-asan", "nts-asan"])
@@ -192,7 +204,7 @@ def main():
     ctx.assumptions = ["a truncated value may be any prefix with length in [L-8, L]",
                        "second-thread steps are skipped in the non-thread-safe build (single-threaded use only)"]
     nw, per = (4, 250) if ctx.quick else (16, 2500)
-    pbt.run(ctx, builds, strategy, evaluate, classify, nw, per, sample=sample)
+    pbt.run(ctx, builds, strategy, evaluate, classify, nw, per, sample=sample, fixed_cases=FIXED)
     ctx.finish()
 
 
